@@ -409,7 +409,8 @@ def generate_histories(ctx, module, cfg_text, workers=NCPU, timeout=1500, extra=
     return hist, len(lines)
 
 
-def replay_histories(ctx, histfile, subcmd, module="Trace", chunks=NCPU, limit=None, seed_shuffle=None, histories=None):
+def replay_histories(ctx, histfile, subcmd, module="Trace", chunks=NCPU, limit=None, seed_shuffle=None, histories=None,
+                     event_triage=False, extra_args=()):
     """Replay TLC-generated behaviours against the real code (harness <subcmd>), validate the
     recorded replays with the trace specification, triage rejections by re-running the history."""
     import random
@@ -429,12 +430,13 @@ def replay_histories(ctx, histfile, subcmd, module="Trace", chunks=NCPU, limit=N
         with open(hf, "w") as f:
             f.write("\n".join(jobs[k]) + "\n")
         tf = os.path.join(ctx.work, "h-%d.ndjson" % k)
-        run_harness(ctx, [subcmd, "-in", hf, "-out", tf])
+        run_harness(ctx, [subcmd, "-in", hf, "-out", tf] + list(extra_args))
         res = validate_trace(ctx, "hv-%d" % k, tf, module=module)
         res["file"] = tf
         return res
 
     bad = []
+    rejected_events = []
     with cf.ThreadPoolExecutor(max_workers=NCPU) as ex:
         for r in ex.map(one, range(len(jobs))):
             ctx.states += r["states"]
@@ -446,10 +448,18 @@ def replay_histories(ctx, histfile, subcmd, module="Trace", chunks=NCPU, limit=N
             if len(ctx.samples) < 2 and evs:
                 ctx.samples.append({"history": evs[0].get("hist"), "events": [trim_sample(e) for e in evs[1:6]]})
             for idx in r["rejected"]:
+                if event_triage:
+                    # every history is one self-contained call: triage it like a driven event (re-execution,
+                    # listed findings by key / signature / counter-factual)
+                    rejected_events.append((evs[idx - 1], r["fails"].get(idx, ["?"]), module, subcmd))
+                    continue
                 j = idx - 1
                 while j >= 0 and evs[j].get("ev") != "Reset":
                     j -= 1
                 bad.append((evs[j].get("hist"), r["fails"].get(idx, ["?"])))
+    if event_triage:
+        triage(ctx, rejected_events, module)
+        return len(lines)
     # triage: re-run each offending history alone
     seen = set()
     unreproduced = []
